@@ -255,6 +255,42 @@ type Scalar struct {
 	Typ    types.Type
 	Origin string // provenance tag: "field:kvElection.onDemote", "ctxdone:<term>", "after:<term>", ...
 	Aux    Val    // auxiliary payload (e.g. the context a Done channel belongs to)
+	// Allocs: when non-nil, the value is nil or one of these heap allocations of the activation (by index)
+	Allocs *allocSet
+}
+
+type allocSet struct{ ks []int }
+
+func unionAllocs(a, b *allocSet) *allocSet {
+	if a == nil || b == nil {
+		return nil
+	}
+	out := &allocSet{ks: append([]int{}, a.ks...)}
+	for _, k := range b.ks {
+		dup := false
+		for _, j := range out.ks {
+			dup = dup || j == k
+		}
+		if !dup {
+			out.ks = append(out.ks, k)
+		}
+	}
+	return out
+}
+
+// allocsOf: the allocation set of a pointer value (a nil literal is the empty set), or nil when unknown.
+func allocsOf(v Val) *allocSet {
+	s, ok := v.(*Scalar)
+	if !ok {
+		return nil
+	}
+	if s.Allocs != nil {
+		return s.Allocs
+	}
+	if s.T.S == "0" {
+		return &allocSet{}
+	}
+	return nil
 }
 
 type StructV struct {
